@@ -156,3 +156,25 @@ _MORE5 = {
 }
 for _pid, _t in _MORE5.items():
     CHECKS[_pid]["text"] += _t
+_MORE6 = {
+    "C01": " A seventh of the cases is evaluated right after a series of FAILING operations (vf/props/_poison.py: state left behind by an exception); chains of up to 90 nested messages (singular / repeated / map / oneof) must round-trip within a budget of Message.__eq__ calls; the two passes of a repeated wall-clock hour of 4 DST zones share a message; float fields are also given Python ints.",
+    "C02": " Poisoned cases as in C01; in-place histories against tree models (what is encoded is what the object holds now, however often it was encoded before).",
+    "C03": " Fixed shapes (one package per typing construct / oneof shape / position of a builtin-named field: vf/props/_shapes.py), comments in other scripts, and the plugin process under LC_ALL=C without UTF-8 mode.",
+    "C04": " Poisoned cases as in C01; a hand-written class whose attribute names are raw proto names (userID, retry__count, HTTPStatus).",
+    "C05": " The pydantic_dataclasses output of the corpus and the class-level from_dict are part of the differential.",
+    "C07": " parse operations carry members as records of a wire type that does not fit (unknown fields: they select nothing).",
+    "C08": " Unknown records inside a sub-message survive pass-through relays (constructor re-wrap, re-assignment, copy / deepcopy) in std and pydantic output.",
+    "C09": " Poisoned cases as in C01; in-place histories against tree models (len / dump / SerializeToString after every in-place change).",
+    "C10": " Poisoned cases as in C01; fixed items at encoded-length boundaries (zig-zag, wrappers at 0, negative sub-second times).",
+    "C11": " A fixed service whose type names matter to the stub (request named after its child package, Timeout / Deadline / Metadata / Request / Stream); receivers write into received messages; a fifth of the messages is all-default.",
+    "C13": " Every generated stub method is called up to its first use of the channel: the classes the client hands over are the classes the server registers; well-known types are rpc types next to fields of the same type; request messages named after their package.",
+    "C14": " The JSON form in both casings and bool(m) are part of the observed state (baseline taken before the harness looks inside the message).",
+    "C15": " Poisoned cases as in C01; drawn process time zone (POSIX TZ incl. half-hour offsets, DST rules) and ambient decimal precision; UTC offsets with a sub-second part; fold pairs of 4 DST zones.",
+    "C16": " decode_varint is also fed one mutable buffer refilled in place; float kinds are given Python ints.",
+    "C17": " Poisoned cases as in C01; groups nested in groups (same / other number) and unterminated groups.",
+    "C18": " Packages with builtin-named fields before / between / after typed constructs and type names ending in None; JSON is compared as parsed values.",
+    "C19": " Hand-written classes whose attribute name is the raw proto name are probed like the generated names.",
+    "C20": " Field positions are exercised on the default, pydantic_dataclasses and typing.310 output of the corpus, through constructor, setattr and both forms of from_dict.",
+}
+for _pid, _t in _MORE6.items():
+    CHECKS[_pid]["text"] += _t
